@@ -11,6 +11,7 @@ for clause, ks in mod.SUITE:
     n += r["pairs_tried"]
     if r["n_violations"]:
         name = clause + ("[" + ",".join(ks) + "]" if ks else "")
-        failing.append(dict(name=name, n_violations=r["n_violations"], violations=r["violations"][:3], replay_cmd=[sys.argv[1] + ".py", clause, *ks]))
+        # `inputs`: one line per failing input (complete), so that a recorded finding covers exactly the inputs it was recorded for
+        failing.append(dict(name=name, n_violations=r["n_violations"], violations=r["violations"][:3], inputs=sorted({__import__("_fp").fingerprint(v) for v in r.get("all_violations", r["violations"])}), replay_cmd=[sys.argv[1] + ".py", clause, *ks]))
 print(json.dumps(dict(evaluations=n, failing=failing, clauses=len(mod.SUITE))))
 sys.exit(1 if failing else 0)
